@@ -58,12 +58,14 @@ func registry() map[string]PropSpec {
 	add(PropSpec{
 		ID: "C11",
 		Harnesses: []HSpec{
-			{Pkg: ".", Name: "c11_validate", Quick: map[string]int{"dims": 2, "adjs": 1}, Thorough: map[string]int{"dims": 2, "adjs": 2}, Unwind: [2]int{16, 24}, Budget: [2]int{120, 3000},
+			{Pkg: ".", Name: "c11_validate", Quick: map[string]int{"dims": 2, "adjs": 1, "anon": 0}, Thorough: map[string]int{"dims": 2, "adjs": 2, "anon": 0}, Unwind: [2]int{16, 24}, Budget: [2]int{120, 3000},
 				What: "validatePermutation accepts exactly what the specification sentence accepts, for every matrix, adjustment list and permutation within the bounds and every map iteration order; ShouldSkip truthiness"},
-			{Pkg: ".", Name: "c11_validate", Quick: map[string]int{"dims": 1, "adjs": 2}, Thorough: map[string]int{"dims": 1, "adjs": 3}, Unwind: [2]int{16, 24},
+			{Pkg: ".", Name: "c11_validate", Quick: map[string]int{"dims": 1, "adjs": 2, "anon": 0}, Thorough: map[string]int{"dims": 1, "adjs": 3, "anon": 0}, Unwind: [2]int{16, 24},
 				What: "same, fewer dimensions and more adjustments (repeated adjustments with conflicting skip flags)"},
-			{Pkg: ".", Name: "c11_step", Quick: map[string]int{"dims": 1, "adjs": 1}, Thorough: map[string]int{"dims": 2, "adjs": 1}, Unwind: [2]int{24, 32}, Budget: [2]int{120, 1800},
-				What: "InterpolateMatrixPermutation: a rejected permutation leaves command, label, key, env, plugins and matrix untouched"},
+			{Pkg: ".", Name: "c11_step", Quick: map[string]int{"dims": 1, "adjs": 1, "anon": 1}, Thorough: map[string]int{"dims": 2, "adjs": 1, "anon": 1}, Unwind: [2]int{24, 32}, Budget: [2]int{120, 1800},
+				What: "InterpolateMatrixPermutation on steps with and without tokens, dimension names of 0-1 bytes (the anonymous dimension included): a permutation the specification rejects is rejected (for a token-free step that can only come from validation) and leaves command, label, key, env, plugins and matrix untouched; an accepted one applies without error to a token-free step"},
+			{Pkg: ".", Name: "c11_validate", Quick: map[string]int{"dims": 1, "adjs": 1, "anon": 1}, Thorough: map[string]int{"dims": 2, "adjs": 1, "anon": 1}, Unwind: [2]int{16, 24}, Budget: [2]int{120, 1800},
+				What: "validatePermutation with dimension names of 0-1 bytes, so that the anonymous dimension occurs alone and next to named ones (1 dimension / 1 adjustment quick, 2 / 1 thorough)"},
 			{Pkg: ".", Name: "c11_tuple", Quick: map[string]int{"long": 5}, Thorough: map[string]int{"long": 7}, Unwind: [2]int{32, 48},
 				What: "tuple equality is per dimension: two dimensions, one adjustment, permutation and adjustment values of 1 or `long` symbolic bytes over the characters that occur as constants in step_command_matrix.go (so separators of any internal encoding are in the alphabet): accepted iff equal in every dimension and not skipped"},
 			{Pkg: ".", Name: "c11_skip", Quick: map[string]int{}, Unwind: [2]int{32, 32},
@@ -124,7 +126,7 @@ func registry() map[string]PropSpec {
 				What: "interpolateAny/Slice/Map/OrderedMap and Plugin.interpolate with a marking transformer (injective, not idempotent) on arbitrary trees of strings, []any, []string, map[string]any, map[string]string, *MapSA, *MapSS, *Plugin, ints, bools, nil: result equals an independently built expected tree"},
 			{Pkg: ".", Name: "c04_error", Quick: map[string]int{}, Unwind: [2]int{48, 48},
 				Models: []string{"github.com/buildkite/interpolate.Interpolate=vpModelInterpolate"},
-				What:   "a failing expansion at any of five positions makes Interpolate return an error"},
+				What:   "a failing expansion at any of 27 positions (command, label, step env, plugin sources with no / map / scalar config, config keys, values and nested values, matrix setup, adjustment tuples and extras, cache paths and extras, unknown fields, wait / input / trigger / group / unknown step contents, env block names and values, nested top-level extras) next to strings that expand fine makes Interpolate return an error"},
 			{Pkg: ".", Name: "c04_transform", Quick: map[string]int{"len": 4}, Thorough: map[string]int{"len": 6}, Unwind: [2]int{48, 64}, Budget: [2]int{120, 1500},
 				Models: []string{"github.com/buildkite/interpolate.Interpolate=vpModelInterpolate"}, Validate: []string{"interpolate"},
 				What: "envInterpolator.Transform on every string of <= len bytes over {A, x, $, backslash, braces, (} with A bound to a symbolic value: fails exactly when, and returns exactly what, the single-pass expansion does (no pre-filter or fast path treats escapes, trailing $ or braces differently)"},
@@ -369,7 +371,7 @@ func registry() map[string]PropSpec {
 				What:   "histories of two SignSteps calls on the same step objects (top level or in a group) with the same key: first any subset of {A, B} as pipeline env, then another subset, value and repository: the result is that of signing fresh steps (exact field list for the env given now, verifies, changed/removed variables and another repository refused)"},
 			{Pkg: "signature", Name: "c06_envnames", Quick: map[string]int{}, Unwind: [2]int{64, 64}, Budget: [2]int{120, 1500}, FixedMapOrder: true,
 				Models: []string{"net/url.Parse=vpModelURLParse", "path.Join=vpModelPathJoin"},
-				What:   "one command step and one pipeline variable whose name is 1-3 symbolic bytes over the characters that occur in the signing code's own constants (read from the current SSA of sign.go: the env:: prefix, separators) plus A, _, a; shadowed or not: SignSteps signs env::NAME exactly when unshadowed, the field list is sorted and distinct, the signature verifies, and a changed value is refused"},
+				What:   "one command step and one pipeline variable whose name is 0-3 symbolic bytes over the characters that occur in the signing code's own constants (read from the current SSA of sign.go: the env:: prefix, separators) plus A, _, a; shadowed or not: SignSteps signs env::NAME exactly when unshadowed, the field list is sorted and distinct, the signature verifies, and a changed value is refused"},
 		},
 		Outside: []string{"nesting depth 4 (bound: 2 quick / 3 thorough with one step per level; 0 / 1 with two steps per level); real cryptography (idealised)"},
 		Assumptions: []string{"ideal signature scheme: jws.Sign(k, alg, P) is the atom sigma(k, alg, P); jws.Verify succeeds iff the presented value is such an atom made with an offered key (same key-pair identity and algorithm) over an equal payload; values not produced by Sign never verify. Natively replays use real generated EdDSA/ES512/PS512/ES256 keys",
@@ -398,6 +400,8 @@ func registry() map[string]PropSpec {
 				What: "same with a signed matrix that mixes the anonymous dimension with a named one and carries an adjustment: changing the named dimension, the anonymous one, removing a dimension or flipping the skip flag must be rejected"},
 			{Pkg: "signature", Name: "c01_fields", Quick: map[string]int{"fields": 5}, Thorough: map[string]int{"fields": 7}, Unwind: [2]int{64, 64}, Budget: [2]int{120, 1500},
 				What: "CommandStepWithInvariants.ValuesForFields on every field list of <= `fields` entries over the five mandatory names and an env:: entry (any order, repeats): values are handed out exactly when all five mandatory fields occur"},
+			{Pkg: "signature", Name: "c01_config", Quick: map[string]int{}, Unwind: [2]int{64, 64}, Budget: [2]int{120, 1500}, FixedMapOrder: true, Models: []string{"net/url.Parse=vpModelURLParse", "path.Join=vpModelPathJoin"},
+				What: "a plugin config signed as one of nil, {}, [], false, 0, empty string, true, a string, 1.5, [false], {k: null} and presented as another: refused unless both are nil or an empty container"},
 			{Pkg: "signature", Name: "c01_legacy", Quick: map[string]int{}, Unwind: [2]int{64, 64}, Budget: [2]int{120, 1500}, FixedMapOrder: true, Models: []string{"net/url.Parse=vpModelURLParse", "path.Join=vpModelPathJoin"},
 				What: "a genuine signature made by a signer that omits one of the five mandatory fields, its (unsigned) field list padded at either end with up to two repeats of fields it has, presented with the uncovered field changed or not: Verify must refuse"},
 		},
